@@ -46,7 +46,7 @@ def query(port, name, qtype=16):
     q = struct.pack(">HHHHHH", rnd.randrange(65536), 0, 1, 0, 0, 0) + wire(name) + struct.pack(">HH", qtype, 1)
     for _ in range(3):
         s = socket.socket(socket.AF_INET, socket.SOCK_DGRAM)
-        s.settimeout(1.0)
+        s.settimeout(5.0)
         try:
             s.sendto(q, ("127.0.0.1", port))
             return q, s.recvfrom(4096)[0]
@@ -119,7 +119,7 @@ def main():
                         proc.send_signal(signal.SIGHUP)
                     live = False
                     marker = f"{SENT}:v{version}".encode()
-                    for _ in range(800):           # up to 20 s
+                    for _ in range(2400):          # up to 60 s
                         _, resp = query(port, SENT)
                         if marker in resp:
                             live = True
